@@ -1141,6 +1141,12 @@ class Interp(object):
                 return a % b
             if sym._both_int(a, b) and isinstance(b, int) and b > 0:
                 return Re(sym.zterm(a) % sym.zterm(b))
+            if isinstance(a, Re) and isinstance(b, (int, Fraction)) and b > 0:
+                # real modulo by a positive constant: a == b*k + r with an integer k, 0 <= r < b
+                k = self.ctx.fresh_int('quot')
+                r = sym.sub(a, sym.mul(b, k))
+                self.ctx.fact(sym.zbool(sym.And(sym.le(0, r), sym.lt(r, b))))
+                return r
             raise Unsupported("modulo of symbolic values")
         raise Unsupported("numeric operator %s" % opn)
 
